@@ -173,6 +173,18 @@ HOSTILE_DESCRIPTIONS = ['quote " inside', 'ends with quote"', "ends with backsla
                         "x\n\u2028\ny"]
 
 
+import enum as _enum
+
+
+class PyMember(_enum.Enum):
+    """Members whose own values collide with other internal values on purpose."""
+    A = 0
+    B = "internal_1"
+    C = 2.5
+    D = 3
+
+
+PY_ENUM_MEMBERS = list(PyMember)
 VANISH = "value the serialiser maps to null"
 HOSTILE_ARGUMENT_NAMES = ["func", "self", "fn", "func", "self", "fn", "func", "self", "args", "kwargs", "cls", "key", "value", "node", "nodes", "default",
                           "type", "name", "resolver", "executor", "runtime", "then", "else_", "path", "field"]
@@ -285,7 +297,8 @@ class SchemaGen(object):
                 nm = "%s_V%d" % (e.name.upper(), i)
                 val = UNSET
                 if coded:
-                    val = rng.choice([i, (e.name, i), "internal_%d" % i, float(i) + 0.5])
+                    # python Enum members are internal values too (EnumType.from_python_enum)
+                    val = rng.choice([i, (e.name, i), "internal_%d" % i, float(i) + 0.5, PY_ENUM_MEMBERS[i % len(PY_ENUM_MEMBERS)]])
                 e.values.append(SEnumValue(nm, val, self.desc(0.2), self.deprecation()))
             e.coded = coded
         for _ in range(rng.randint(0, 2)):
